@@ -189,13 +189,15 @@ theorem C16_statement_partial (s : Spec κ ν) (hd : ColsDistinct s) : C16Statem
   have := C16_history s ⟨lay, hd⟩ hs hcov cur order g hcv
   exact ⟨this.1, this.2.1⟩
 
-/-- PICKLING. After EVERY history of runs (any inputs, any completion orders), pickle / save-load
+/-- PICKLING AND BY-VALUE EXECUTION. After EVERY history of runs (any inputs, any completion orders), runs
+of the loop node ITSELF on a by-value executor (`Ev.rrun`: pickled, run on the copy, merged back), pickle / save-load
 round trips of the node at rest (`Ev.reload`: between runs, after refused or failed runs) and copies
 restored from a pickle taken WHILE body nodes were out (`Ev.snap`, running flag cleared by hand), a run
 on good inputs returns the reference table for the CURRENT inputs, and the children are the input
 nodes plus what the current lengths dictate -/
 theorem C16_roundtrip (s : Spec κ ν) (v : Valid s) (hs : List (Ev κ ν))
-    (hcov : ∀ cur order, Ev.run cur order ∈ hs → Good s cur → Covers order (combos s cur).length)
+    (hcov : ∀ cur order, (Ev.run cur order ∈ hs ∨ Ev.rrun cur order ∈ hs) → Good s cur →
+      Covers order (combos s cur).length)
     (cur : Cur κ ν) (order : List Nat) (g : Good s cur) (hc : Covers order (combos s cur).length) :
     let st := evs s (init s) hs
     (run s st cur order).2 = .ok ∧ (run s st cur order).1.outs = refOuts s cur ∧
@@ -207,8 +209,10 @@ theorem C16_roundtrip (s : Spec κ ν) (v : Valid s) (hs : List (Ev κ ν))
 two histories (with or without round trips and snapshots, whatever happened in between) precede it,
 the run on the same good inputs gives the same result, the same outputs and the same children -/
 theorem C16_roundtrip_unchanged (s : Spec κ ν) (v : Valid s) (hs hs' : List (Ev κ ν))
-    (hcov : ∀ cur order, Ev.run cur order ∈ hs → Good s cur → Covers order (combos s cur).length)
-    (hcov' : ∀ cur order, Ev.run cur order ∈ hs' → Good s cur → Covers order (combos s cur).length)
+    (hcov : ∀ cur order, (Ev.run cur order ∈ hs ∨ Ev.rrun cur order ∈ hs) → Good s cur →
+      Covers order (combos s cur).length)
+    (hcov' : ∀ cur order, (Ev.run cur order ∈ hs' ∨ Ev.rrun cur order ∈ hs') → Good s cur →
+      Covers order (combos s cur).length)
     (cur : Cur κ ν) (order order' : List Nat) (g : Good s cur)
     (hc : Covers order (combos s cur).length) (hc' : Covers order' (combos s cur).length) :
     (run s (evs s (init s) hs) cur order).2 = (run s (evs s (init s) hs') cur order').2 ∧
@@ -236,6 +240,19 @@ theorem C16_midrun_copy (s : Spec κ ν) (st st' : St κ ν) (cur : Cur κ ν) (
           subst h
           exact ⟨rfl, rfl, rfl, fun cur' => by simp [isHit]⟩
     · cases h
+
+/-- the run that is ITSELF by-value: after every such history, the loop node shipped to a by-value
+executor with good inputs comes back with the reference table of the CURRENT inputs (never an earlier
+run's lists), and so does every later local run (`C16_roundtrip` with the event appended) -/
+theorem C16_by_value (s : Spec κ ν) (v : Valid s) (hs : List (Ev κ ν))
+    (hcov : ∀ cur order, (Ev.run cur order ∈ hs ∨ Ev.rrun cur order ∈ hs) → Good s cur →
+      Covers order (combos s cur).length)
+    (cur : Cur κ ν) (order : List Nat) (g : Good s cur) (hc : Covers order (combos s cur).length) :
+    (runByValue s (evs s (init s) hs) cur order).2 = .ok ∧
+    (runByValue s (evs s (init s) hs) cur order).1.outs = refOuts s cur ∧
+    (runByValue s (evs s (init s) hs) cur order).1.children = s.bodyInputs.map .input
+      ++ freshChildren s (refMaps (lensOfCur cur s.iterOn) (lensOfCur cur s.zipOn)) :=
+  C16_roundtrip s v hs hcov cur order g hc
 
 omit [DecidableEq ν] in
 /-- no leftovers: a build keeps exactly the input nodes and adds children that are a function of
@@ -461,18 +478,19 @@ example :
 continues on the copy), a refused run (empty list), another round trip — then a run with new lengths -/
 example :
     let hs : List (Ev String (List Nat)) :=
-      [.run (exCur [[1], [2]] [[3]] [[4], [5]]) [3, 1, 0, 2], .reload, .snap (exCur [[1]] [[3]] [[4], [5]]),
+      [.rrun (exCur [[1], [2]] [[3]] [[4], [5]]) [3, 1, 0, 2], .reload, .snap (exCur [[1]] [[3]] [[4], [5]]),
        .run (exCur [] [[3]] [[4], [5]]) [0, 1], .reload]
     (run (exSpec true) (evs (exSpec true) (init (exSpec true)) hs) (exCur [[1]] [[3], [8]] [[4]]) [1, 0]).2 = .ok :=
   (C16_roundtrip (exSpec true) (exValid true) _
     (by
       intro cur order hh g
-      simp only [List.mem_cons, List.mem_nil_iff, or_false, reduceCtorEq, false_or, Ev.run.injEq] at hh
+      simp only [List.mem_cons, List.mem_nil_iff, or_false, reduceCtorEq, false_or, or_false, Ev.run.injEq,
+        Ev.rrun.injEq] at hh
       rcases hh with ⟨rfl, rfl⟩ | ⟨rfl, rfl⟩
-      · intro n hn; have : n < 4 := hn; simp; omega
       · exact absurd g (fun g => by
           obtain ⟨vs, h1, h2⟩ := g.lists "a" (by decide)
-          simp [exCur, valOf] at h1; exact h2 h1))
+          simp [exCur, valOf] at h1; exact h2 h1)
+      · intro n hn; have : n < 4 := hn; simp; omega)
     _ [1, 0] (exGood true _ _ _ (by simp) (by simp) (by simp))
     (by intro n hn; have : n < 2 := hn; simp; omega)).1
 /-- `C16_midrun_copy`: a snapshot exists exactly when a run is in flight -/
@@ -557,3 +575,4 @@ end PwVerif.C16
 #print axioms PwVerif.C16.C16_roundtrip
 #print axioms PwVerif.C16.C16_roundtrip_unchanged
 #print axioms PwVerif.C16.C16_midrun_copy
+#print axioms PwVerif.C16.C16_by_value
